@@ -95,8 +95,37 @@ BundleCapFails(r) ==
        (IF r.ret_big = Len(enc) /\ r.bytes = enc THEN {} ELSE {"reference_image"})
        \cup Tagged("bundle:", CapFailsOne(r, enc, r.rets, r.zero, r.eq, r.guard, r.asan))
 
+\* ------------------------------------------------------------------ C07
+\* arbitrary bytes b (length n).  Always: no read outside b, termination, length in {0} \cup 1..n.
+\* If the predicate accepts: b must be decodable by the specification's (padding-lenient)
+\* decoder inside the n bytes, and every accessor must return what that decoder returns.
+ExpVal7(a) == CASE a.t = "T" -> <<1>> [] a.t = "F" -> <<0>> [] a.t \in {"N", "I", "[", "]", "?"} -> <<>> [] OTHER -> a.v
+BytesFails(r) ==
+  LET b == r.bytes
+      n == Len(b)
+      base == {k \in {"oob_read_in_length_or_valid", "crash_or_hang_in_length_or_valid", "length_exceeds_n"} :
+               ~ CASE k = "oob_read_in_length_or_valid" -> r.asan_v = 0
+                   [] k = "crash_or_hang_in_length_or_valid" -> r.sig_v = 0
+                   [] k = "length_exceeds_n" -> r.sig_v # 0 \/ (r.mlen >= 0 /\ r.mlen <= n) }
+  IN IF ~ r.valid THEN base
+     ELSE LET d == DecodeLenient(b) IN
+          IF ~ d.ok THEN base \cup {"accepts_undecodable"}      \* (trailing bytes behind the decoded message are not judged)
+          ELSE IF r.sig_a # 0 THEN base \cup {"accessor_crash_or_hang"}
+          ELSE LET nb == NonBr(d.args)
+                   tb == SelectSeq(d.tagbytes, LAMBDA c : c \notin {91, 93})
+                   a  == r.acc
+               IN base \cup {k \in {"accessor_oob_read", "mlen_not_n", "argstr", "nargs", "types", "vals", "itr"} :
+                   ~ CASE k = "accessor_oob_read" -> r.asan_a = 0
+                       [] k = "mlen_not_n" -> r.mlen = n
+                       [] k = "argstr" -> a.argstr = d.tagbytes
+                       [] k = "nargs"  -> a.nargs = Len(nb)
+                       [] k = "types"  -> a.types = tb
+                       [] k = "vals"   -> a.vals = [i \in 1..Len(nb) |-> ExpVal7(nb[i])]
+                       [] k = "itr"    -> a.itr_end /\ a.itr = [i \in 1..Len(nb) |-> [t |-> tb[i], v |-> ExpVal7(nb[i])]] }
+
 Fails(r) == CASE r.k = "msg" -> MsgFails(r)
               [] r.k = "cap" -> CapFails(r)
+              [] r.k = "bytes" -> BytesFails(r)
               [] r.k = "bundle" -> IF Has(IOEnv, "BUNDLE_AS") /\ IOEnv.BUNDLE_AS = "cap" THEN BundleCapFails(r) ELSE BundleFails(r)
               [] OTHER -> {"unknown_record_kind"}
 Judge == l < 0 \/ LET f == Fails(Log[l]) IN f = {} \/ PrintT(<<"REJECT", l, f>>)
